@@ -106,6 +106,8 @@ def fragment_template(eng, res, rule="R-FRAGMENT"):
 
 
 def check(eng, res):
+    res.doc("R-INDEX-WRITERS", "descriptor atom / node indices are written only by the parser and the attachment shift (shared with C04)")
+    res.doc("R-BRANCH-ORDER", "the binding atom recorded by the token parser follows the branch structure of the text (shared with C02)")
     res.doc("R-FRAGMENT", "the fragment SMILES of a token: atoms and internal bonds as written, descriptors become breaks, empty branches removed")
     res.doc("R-ATOM-SOURCE", "atoms enter a MolGen only through MolFromSmiles(token fragment) in the constructor and CombineMols in attach_other")
     res.doc("R-ONE-BOND", "exactly one AddBond, one residue-graph edge, one CombineMols, one disjoint_union per attachment, none in a loop")
@@ -120,6 +122,13 @@ def check(eng, res):
     res.floor("R-FRESH-OTHER", ns, 3)
     accessors(eng, res)
     fragment_template(eng, res)
+    nw = c04.index_writers(eng, res)
+    res.floor("R-INDEX-WRITERS", nw, 4)
+    from . import c02
+
+    sub2 = type(res)(res.prop)
+    c02.branch_order(eng, sub2)
+    res.obligations += sub2.obligations
     res.assumptions += ["CombineMols / AddBond / deepcopy behave as documented", "induction over attach_other: |V| grows by the other side's nodes, |E| by its edges + 1"]
     res.not_decided += [
         "chemical sanitisation succeeding, hydrogen counts of unbracketed atoms, mass additivity, identity of charges / isotopes with the token (RDKit semantics on runtime values)",
